@@ -525,7 +525,7 @@ fn get_fields(
                         ParamValue::Null => unreachable!(),
                     };
                     q.push_str(&format!(
-                        "'{}', Ifnull({},{}",
+                        "'{}', Ifnull({},{})",
                         &field.name(),
                         select,
                         default
